@@ -4,6 +4,7 @@ import (
 	"context"
 	"errors"
 	"fmt"
+	"sync"
 	"sync/atomic"
 	"time"
 
@@ -30,6 +31,12 @@ type Group interface {
 	Propose(context.Context, []byte) error
 }
 
+type membershipChange struct {
+	seq     uint64
+	removed bool
+	address string
+}
+
 type ProcessFn func([]byte) error
 type SnapshotFn func() ([]byte, error)
 
@@ -41,6 +48,11 @@ type RaftGroup struct {
 	processFn         ProcessFn
 	processSnapshotFn ProcessFn
 	snapshotFn        SnapshotFn
+
+	// Last membership change of each node applied since this group was started (zero group only)
+	membershipChanges   map[uint64]membershipChange
+	membershipChangeSeq uint64
+	membershipChangesMu sync.RWMutex
 
 	raft          etcdRaft.Node
 	raftConfState *raftpb.ConfState
@@ -124,6 +136,7 @@ func NewRaftGroup(id uuid.UUID, nodeIds []uint64, storage wal.WAL, transport *Ra
 		processFn:         nil,
 		processSnapshotFn: nil,
 		snapshotFn:        nil,
+		membershipChanges: make(map[uint64]membershipChange),
 		raft:              raftNode,
 		wal:               storage,
 		log:               logger,
@@ -302,10 +315,26 @@ func (this *RaftGroup) processConfChange(entry raftpb.Entry) error {
 		case raftpb.ConfChangeRemoveNode:
 			this.transport.removeNodeAddress(cc.NodeID)
 		}
+
+		this.membershipChangesMu.Lock()
+		this.membershipChangeSeq++
+		this.membershipChanges[cc.NodeID] = membershipChange{
+			seq:     this.membershipChangeSeq,
+			removed: cc.Type == raftpb.ConfChangeRemoveNode,
+			address: string(cc.Context),
+		}
+		this.membershipChangesMu.Unlock()
 	}
 
 	this.raftConfState = this.raft.ApplyConfChange(cc)
 	return nil
+}
+
+func (this *RaftGroup) lastMembershipChange(nodeId uint64) membershipChange {
+	this.membershipChangesMu.RLock()
+	defer this.membershipChangesMu.RUnlock()
+
+	return this.membershipChanges[nodeId]
 }
 
 func (this *RaftGroup) trySnapshot(lastCommittedIdx, skip uint64) error {
